@@ -304,6 +304,9 @@ class Connector:
 
     def _schedule_connection(self, delay, h, is_relay):
         ep = endpoint_from_hint_obj(h, self._tor, self._reactor)
+        if ep is None:
+            # no endpoint can reach this hint (e.g. Tor and a private address)
+            return
         desc = describe_hint_obj(h, is_relay, self._tor)
         d = deferLater(self._reactor, delay,
                        self._connect, ep, desc, is_relay)
